@@ -84,6 +84,17 @@ def protocol(P, R):
                 problems.append(
                     'the wrapper returns without re-arming `_last_len` '
                     'after the retry: dynamic reordering stays disabled')
+    attempts = [c for st in w.node.body for c in au.calls_in(st, 'func')]
+    if len(attempts) == 2:
+        sig = [([au.src(a) for a in c.args],
+                [(k.arg, au.src(k.value)) for k in c.keywords])
+               for c in attempts]
+        if sig[0] != sig[1]:
+            problems.append(
+                f'the retry `{au.short(attempts[1], 50)}` does not pass '
+                f'the same arguments as the first attempt '
+                f'`{au.short(attempts[0], 50)}`: after a reordering the '
+                'operation is repeated with other arguments')
     if state < 5 and not problems:
         problems.append('the retry protocol is incomplete '
                         f'(reached state {state} of 5)')
@@ -227,8 +238,10 @@ def protocol(P, R):
         R.undecided('R-REORD', cf.qualname, 'configure', 'unrecognised')
 
 
-def decorated_set(P, R):
+def decorated_set(P, R, only=None):
     for name in ANCHORS:
+        if only is not None and name not in only:
+            continue
         f = P.func(f'dd.bdd.BDD.{name}')
         if decorated(f):
             R.holds('R-REORD', f.qualname, 'served by _try_to_reorder')
@@ -332,3 +345,178 @@ def r_context(P, R):
     au.set_parents(P.func('dd.bdd._ReorderingContext.__exit__').node)
     protocol(P, R)
 r_context.NAME = 'R-REORD(context restores its flag)'
+
+
+# ----------------------------------------------------------- retry hazards
+LEVEL_CALLS = {'level_of_var', '_map_to_level', '_top_var'}
+CONSUMERS = {'set', 'list', 'tuple', 'sorted', 'any', 'all', 'map',
+             'filter', 'frozenset', 'dict', 'enumerate', 'zip', 'iter',
+             'sum', 'min', 'max', 'next'}
+
+
+def level_valued(e):
+    """Expression that evaluates to level(s) of the current order."""
+    if isinstance(e, ast.Call):
+        name = au.call_name(e)
+        if name in LEVEL_CALLS:
+            return True
+        if name == 'support':
+            for k in e.keywords:
+                if k.arg == 'as_levels' and not (isinstance(
+                        k.value, ast.Constant) and not k.value.value):
+                    return True
+            if len(e.args) >= 2 and not (isinstance(
+                    e.args[1], ast.Constant) and not e.args[1].value):
+                return True
+    if isinstance(e, ast.Subscript):
+        ch = au.chain(e.value)
+        if ch and ch[-1] == 'vars':
+            return True
+    if isinstance(e, (ast.SetComp, ast.ListComp, ast.DictComp)):
+        parts = [e.key, e.value] if isinstance(e, ast.DictComp) else [e.elt]
+        return any(level_valued(x) for x in parts)
+    return False
+
+
+def stale_levels(P, R):
+    """Levels computed outside a decorated call must not be passed into
+    it: the retry after a reordering would use the old numbers."""
+    G = CallGraph(P)
+    n = 0
+    for f in sorted(P.all_funcs({'dd.bdd', 'dd.autoref', 'dd._copy',
+                                 'dd._parser'}), key=lambda f: f.qualname):
+        if decorated(f):
+            continue
+        edges = [e for e in G.out.get(f.qualname, [])
+                 if e.callee and e.call is not None]
+        dec_calls = [e for e in edges if (P.func(
+            e.callee, required=False) and decorated(P.func(e.callee)))]
+        if not dec_calls:
+            continue
+        # locals holding levels
+        lv = set()
+        for node in au.walk_no_defs(f.node):
+            if isinstance(node, ast.Assign) and level_valued(node.value):
+                lv |= au.assigned_names(node)
+        for e in dec_calls:
+            n += 1
+            args = list(e.call.args) + [k.value for k in e.call.keywords]
+            bad = [a for a in args if level_valued(a) or (
+                au.names_loaded(a) & lv and not isinstance(a, ast.Call))]
+            if bad:
+                R.violation(
+                    'R-REORD', 'stale-level', f.qualname,
+                    e.callee.rsplit('.', 1)[-1],
+                    f'`{au.short(e.call, 70)}` passes '
+                    f'`{au.short(bad[0])}`, a level computed before the '
+                    f'call, to the decorated {e.callee}: if a reordering '
+                    'request is served inside it, the retry runs with '
+                    'level numbers of the old order (other variables)',
+                    unit=f.unit.rel, line=e.call.lineno)
+    R.holds('R-REORD', 'undecorated callers',
+            f'{n} call(s) from undecorated frames into decorated methods '
+            'pass no level computed outside the retry scope')
+    R.floor('R-REORD calls into decorated methods', n, 5)
+
+
+def one_shot(P, R):
+    """A decorated method that consumes an iterable argument sees it
+    exhausted when it is retried (F11)."""
+    for name in ANCHORS:
+        f = P.func(f'dd.bdd.BDD.{name}')
+        if not decorated(f):
+            continue
+        for a in f.node.args.args:
+            ann = au.src(a.annotation) if a.annotation is not None else ''
+            if 'Iterable' not in ann:
+                continue
+            uses = []
+            for node in au.walk_no_defs(f.node):
+                if isinstance(node, ast.Call) and au.call_name(
+                        node) in CONSUMERS and any(
+                            au.is_name(x, a.arg) for x in node.args):
+                    uses.append(node)
+                if isinstance(node, ast.comprehension) and au.is_name(
+                        node.iter, a.arg):
+                    uses.append(node.iter)
+                if isinstance(node, ast.For) and au.is_name(
+                        node.iter, a.arg):
+                    uses.append(node.iter)
+            uses.sort(key=lambda x: (x.lineno, x.col_offset))
+            if uses:
+                R.violation(
+                    'R-REORD', 'one-shot-argument', f.qualname, a.arg,
+                    f'`{a.arg}` is declared as an Iterable and is consumed '
+                    f'inside the decorated method '
+                    f'(`{au.short(getattr(uses[0], "_parent", uses[0]), 60)}`): '
+                    'when a reordering request is served, the retry '
+                    'receives the same, already exhausted iterator and '
+                    'computes with an empty collection',
+                    unit=f.unit.rel, line=f.lineno)
+            else:
+                R.holds('R-REORD', f.qualname,
+                        f'iterable argument `{a.arg}` is not consumed '
+                        'before the retry scope')
+
+
+def live_levels(P, R):
+    """Loops that reorder must read levels from the manager, not from a
+    snapshot taken before the loop."""
+    for q in ('dd.bdd.reorder_to_pairs', 'dd.bdd._sort_to_order',
+              'dd.bdd._reorder_var', 'dd.bdd._apply_sifting'):
+        f = P.func(q)
+        snap = dict()
+        for node in f.node.body:
+            if isinstance(node, ast.Assign) and isinstance(
+                    node.targets[0], ast.Name):
+                v = au.src(node.value).replace(' ', '')
+                if v.endswith('.var_levels') or v in (
+                        'dict(bdd.vars)', 'bdd.vars.copy()',
+                        'dict(bdd._level_to_var)'):
+                    snap[node.targets[0].id] = node
+        loops = [x for x in au.walk_no_defs(f.node)
+                 if isinstance(x, (ast.For, ast.While)) and any(
+                     au.call_name(c) in ('swap', '_shift', 'reorder',
+                                         '_reorder_var')
+                     for c in au.calls_in(x))]
+        bad = None
+        for lp in loops:
+            for x in ast.walk(lp):
+                if isinstance(x, ast.Subscript) and isinstance(
+                        x.value, ast.Name) and x.value.id in snap:
+                    bad = x
+        if bad is not None:
+            R.violation(
+                'R-REORD', 'stale-snapshot', q, bad.value.id,
+                f'`{au.short(bad)}` reads a level from a copy of the order '
+                'made before the loop, although the loop itself swaps '
+                'levels: later iterations work with levels that are no '
+                'longer current', unit=f.unit.rel, line=bad.lineno)
+        elif loops:
+            R.holds('R-REORD', q, 'levels are read from the manager '
+                    'inside the reordering loop')
+
+
+def r_retry(P, R):
+    au.set_parents(P.func('dd.bdd.BDD.cube').node)
+    au.set_parents(P.func('dd.bdd.BDD.quantify').node)
+    stale_levels(P, R)
+    one_shot(P, R)
+r_retry.NAME = 'R-REORD(retry hazards)'
+
+
+def r_stale_levels(P, R):
+    stale_levels(P, R)
+r_stale_levels.NAME = 'R-REORD(no stale levels into decorated calls)'
+
+
+def r_live_levels(P, R):
+    live_levels(P, R)
+r_live_levels.NAME = 'R-REORD(live levels in reordering loops)'
+
+
+def r_let_decorated(P, R):
+    """The three operations behind `let` serve reordering requests at
+    their own level (their intermediates are unreferenced integers)."""
+    decorated_set(P, R, only={'cofactor', 'compose', 'rename'})
+r_let_decorated.NAME = 'R-REORD(let operations are decorated)'
